@@ -28,8 +28,9 @@ VARIABLES l,      \* next line
           iters,  \* iterator handle -> [h, op, type, exp, got, cnt, bogus]
           imgs,   \* image slot -> [kind, par, S, tid, bytes, dg, differs]
           digs,   \* <<kind, parkey, S>> -> digest of the image of a *built* object (kept across programs)
+          memo,   \* <<handle, query>> -> first response: the same query must get the same response again (C14)
           nev, nbad
-tvars == <<l, prog, objs, tabs, iters, imgs, digs, nev, nbad>>
+tvars == <<l, prog, objs, tabs, iters, imgs, digs, memo, nev, nbad>>
 
 Upd(f, k, v) == (k :> v) @@ f
 Drop(f, k) == [x \in DOMAIN f \ {k} |-> f[x]]
@@ -50,9 +51,16 @@ Report(ev, Cs, kind, origin) ==
   /\ \A i \in 1..Len(Cs) :
        PrintT(<<"BAD", ToJson([l |-> l, prog |-> prog.id, focus |-> prog.focus, p |-> Cs[i].p, why |-> Cs[i].w, ev |-> ev.e,
                                kind |-> kind, origin |-> origin,
+                               h |-> IF "h" \in DOMAIN ev THEN ev.h ELSE IF "it" \in DOMAIN ev /\ ev.it \in DOMAIN iters THEN iters[ev.it].h ELSE 0,
                                site |-> IF ev.e = "memerr" THEN ev.site ELSE "", cls |-> IF ev.e = "memerr" THEN ev.class ELSE "",
                                during |-> IF ev.e \in {"memerr", "crash", "timeout"} THEN ev.during ELSE ""])>>)
 Quiet == nbad' = nbad
+
+\* C14: a query repeated on the same object must be answered as it was the first time (whatever was
+\* called in between).  key = <<handle, query...>>, val = the logged response.
+PureC(key, val, what) == IF key \in DOMAIN memo /\ memo[key] # val
+                           THEN <<C("C14", what \o ": the same query on the same object was answered differently before")>> ELSE <<>>
+Remember(key, val) == memo' = IF key \in DOMAIN memo THEN memo ELSE Upd(memo, key, val)
 
 -----------------------------------------------------------------------------
 TBuild(ev) ==
@@ -61,17 +69,17 @@ TBuild(ev) ==
       Cs == (IF ValidInput(ev.S) THEN <<>> ELSE <<C("HARNESS", "build: input outside the validity domain")>>)
   IN  /\ tabs' = Upd(tabs, tid, IF k \in Ordered THEN ev.S ELSE [i \in 1..Len(ev.S) |-> <<>>])
       /\ objs' = Upd(objs, ev.h, [kind |-> k, par |-> Clamp(k, ev.par), S |-> ev.S, tid |-> tid, origin |-> "built", opt |-> 0, differs |-> FALSE])
-      /\ Report(ev, Cs, k, "built") /\ UNCHANGED <<iters, imgs, digs>>
+      /\ Report(ev, Cs, k, "built") /\ UNCHANGED <<iters, imgs, digs, memo>>
 
 TNum(ev) ==
   LET o == objs[ev.h] IN
   /\ Report(ev, IF LimbsEq(ev.r, N(o)) THEN <<>> ELSE <<C("C15", "numElements differs from the number of strings supplied")>>, o.kind, o.origin)
-  /\ UNCHANGED <<objs, tabs, iters, imgs, digs>>
+  /\ UNCHANGED <<objs, tabs, iters, imgs, digs, memo>>
 TMaxLen(ev) ==
   LET o == objs[ev.h] IN
   /\ Report(ev, IF IsSmall(ev.r) /\ MaxLenOK(o, SmallVal(ev.r)) THEN <<>>
                 ELSE <<C("C15", "maxLength outside [longest, longest+1]")>>, o.kind, o.origin)
-  /\ UNCHANGED <<objs, tabs, iters, imgs, digs>>
+  /\ UNCHANGED <<objs, tabs, iters, imgs, digs, memo>>
 
 PatC(ev, what) == IF ev.pok = 1 THEN <<>> ELSE <<C("C14", what \o ": caller's pattern buffer modified")>>
 
@@ -87,8 +95,10 @@ TLocate(ev) ==
               ELSE IF o.kind \in Ordered THEN <<C("C03", "locate: ID of a member is not its rank")>>
               ELSE <<C("C01", "locate: ID inconsistent with earlier locate/extract answers")>>
             ELSE IF IsZeroL(ev.r) THEN <<>> ELSE <<C("C02", "locate: absent string reported as found")>>
+      key == <<ev.h, "L", q>>
   IN  /\ tabs' = IF mem > 0 /\ C1 = <<>> THEN [tabs EXCEPT ![o.tid][rv] = q] ELSE tabs
-      /\ Report(ev, C1 \o PatC(ev, "locate"), o.kind, o.origin) /\ UNCHANGED <<objs, iters, imgs, digs>>
+      /\ Remember(key, ev.r)
+      /\ Report(ev, C1 \o PatC(ev, "locate") \o PureC(key, ev.r, "locate"), o.kind, o.origin) /\ UNCHANGED <<objs, iters, imgs, digs>>
 
 \* conformance of a returned (id, string) pair with the table; yields complaints
 PairC(o, known, i, ev, what) ==
@@ -107,8 +117,11 @@ TExtract(ev) ==
       Cs == IF valid THEN PairC(o, known, i, ev, "extract")
             ELSE IF ev.null = 1 /\ ev.len = 0 THEN <<>>
             ELSE <<C("C02", "extract: ID outside [1,n] must give NULL with length 0")>>
+      key == <<ev.h, "E", ev.id>>
+      val == <<ev.null, ev.len, ev.s>>
   IN  /\ tabs' = IF valid /\ Cs = <<>> THEN [tabs EXCEPT ![o.tid][i] = ev.s] ELSE tabs
-      /\ Report(ev, Cs, o.kind, o.origin) /\ UNCHANGED <<objs, iters, imgs, digs>>
+      /\ Remember(key, val)
+      /\ Report(ev, Cs \o PureC(key, val, "extract"), o.kind, o.origin) /\ UNCHANGED <<objs, iters, imgs, digs>>
 
 TExtRank(ev) ==
   LET o == objs[ev.h]  n == N(o)
@@ -118,7 +131,7 @@ TExtRank(ev) ==
             ELSE IF ~valid THEN <<>>
             ELSE IF ev.null = 0 /\ ev.s = o.S[k] /\ ev.len = Len(ev.s) THEN <<>>
             ELSE <<C("C03", "extractRank(k) is not the k-th smallest member")>>
-  IN  Report(ev, Cs, o.kind, o.origin) /\ UNCHANGED <<objs, tabs, iters, imgs, digs>>
+  IN  Report(ev, Cs, o.kind, o.origin) /\ UNCHANGED <<objs, tabs, iters, imgs, digs, memo>>
 
 TLocRank(ev) ==
   LET o == objs[ev.h]  known == tabs[o.tid]  n == N(o)
@@ -131,7 +144,7 @@ TLocRank(ev) ==
             ELSE IF ~valid THEN <<>>
             ELSE IF okpair THEN <<>> ELSE <<C("C03", "extract(locateRank(k)) is not the k-th smallest member")>>
   IN  /\ tabs' = IF HasRank(o) /\ valid /\ okpair THEN [tabs EXCEPT ![o.tid][rv] = o.S[k]] ELSE tabs
-      /\ Report(ev, Cs, o.kind, o.origin) /\ UNCHANGED <<objs, iters, imgs, digs>>
+      /\ Report(ev, Cs, o.kind, o.origin) /\ UNCHANGED <<objs, iters, imgs, digs, memo>>
 
 -----------------------------------------------------------------------------
 (* Iterators.  exp = the strings the stream has to deliver; for order-      *)
@@ -151,9 +164,10 @@ TOpen(ev, type) ==
             ELSE <<>>
   IN  /\ iters' = IF ev.null = 1 THEN iters
                   ELSE Upd(iters, ev.it, [h |-> ev.h, op |-> op, type |-> type, exp |-> exp, fixed |-> fixed,
-                                          gotS |-> {}, gotI |-> {}, cnt |-> 0, bogus |-> ~cap])
+                                          gotS |-> {}, gotI |-> {}, cnt |-> 0, bogus |-> ~cap,
+                                          seq |-> <<>>, key |-> <<ev.h, type, op, ev.p>>])
       /\ Report(ev, Cs \o (IF op = "table" THEN <<>> ELSE PatC(ev, op)), o.kind, o.origin)
-      /\ UNCHANGED <<objs, tabs, imgs, digs>>
+      /\ UNCHANGED <<objs, tabs, imgs, digs, memo>>
 
 THas(ev) ==
   LET itr == iters[ev.it]  o == objs[itr.h]
@@ -162,7 +176,10 @@ THas(ev) ==
             ELSE IF ev.r = 1 /\ rem <= 0 THEN <<C(OpProp(itr.op), itr.op \o ": hasNext is true after the last element"), C("C13", "hasNext true after the last element")>>
             ELSE IF ev.r = 0 /\ rem > 0 THEN <<C(OpProp(itr.op), itr.op \o ": stream ends before all results were delivered")>>
             ELSE <<>>
-  IN  Report(ev, Cs, o.kind, o.origin) /\ UNCHANGED <<objs, tabs, iters, imgs, digs>>
+      done == ev.r = 0 /\ ~itr.bogus                     \* the stream ended: its whole delivery is the answer of the query
+  IN  /\ IF done THEN Remember(itr.key, itr.seq) ELSE memo' = memo
+      /\ Report(ev, Cs \o (IF done THEN PureC(itr.key, itr.seq, itr.op) ELSE <<>>), o.kind, o.origin)
+      /\ UNCHANGED <<objs, tabs, iters, imgs, digs>>
 
 \* the k-th string of a stream with fixed order (ascending IDs)
 KthFixed(o, known, itr, k) ==
@@ -188,8 +205,8 @@ TIdNext(ev) ==
                ELSE <<C(P, itr.op \o ": ID of a non-matching member")>>)
             ELSE IF known[rv] # <<>> /\ known[rv] \notin itr.exp THEN <<C(P, itr.op \o ": ID of a non-matching member")>>
             ELSE <<>>
-  IN  /\ iters' = [iters EXCEPT ![ev.it].cnt = @ + 1, ![ev.it].gotI = IF inr THEN @ \cup {rv} ELSE @]
-      /\ Report(ev, Cs, o.kind, o.origin) /\ UNCHANGED <<objs, tabs, imgs, digs>>
+  IN  /\ iters' = [iters EXCEPT ![ev.it].cnt = @ + 1, ![ev.it].gotI = IF inr THEN @ \cup {rv} ELSE @, ![ev.it].seq = Append(@, ev.r)]
+      /\ Report(ev, Cs, o.kind, o.origin) /\ UNCHANGED <<objs, tabs, imgs, digs, memo>>
 
 TStrNext(ev) ==
   LET itr == iters[ev.it]  o == objs[itr.h]  known == tabs[o.tid]  n == N(o)
@@ -207,14 +224,15 @@ TStrNext(ev) ==
             ELSE IF itr.fixed /\ want # <<>> /\ ev.s # want THEN <<C(P, itr.op \o ": strings not in ID order"), C("C13", "k-th string of the scan is not extract(k)")>>
             ELSE IF itr.fixed /\ want = <<>> /\ ~learn THEN <<C("C13", "k-th string of the scan contradicts earlier extract/locate answers")>>
             ELSE <<>>
-  IN  /\ iters' = [iters EXCEPT ![ev.it].cnt = @ + 1, ![ev.it].gotS = IF ev.null = 0 THEN @ \cup {ev.s} ELSE @]
+  IN  /\ iters' = [iters EXCEPT ![ev.it].cnt = @ + 1, ![ev.it].gotS = IF ev.null = 0 THEN @ \cup {ev.s} ELSE @,
+                                 ![ev.it].seq = Append(@, <<ev.null, ev.len, ev.s>>)]
       /\ tabs' = IF learn /\ Cs = <<>> THEN [tabs EXCEPT ![o.tid][k] = ev.s] ELSE tabs
-      /\ Report(ev, Cs, o.kind, o.origin) /\ UNCHANGED <<objs, imgs, digs>>
+      /\ Report(ev, Cs, o.kind, o.origin) /\ UNCHANGED <<objs, imgs, digs, memo>>
 
 TIterCap(ev) ==
   LET itr == iters[ev.it]  o == objs[itr.h] IN
   /\ Report(ev, IF itr.bogus THEN <<>> ELSE <<C(OpProp(itr.op), itr.op \o ": iterator still has elements after n+2 of them"), C("C13", "iterator does not end")>>, o.kind, o.origin)
-  /\ UNCHANGED <<objs, tabs, iters, imgs, digs>>
+  /\ UNCHANGED <<objs, tabs, iters, imgs, digs, memo>>
 
 -----------------------------------------------------------------------------
 TSave(ev) ==
@@ -228,7 +246,7 @@ TSave(ev) ==
   IN  /\ digs' = IF built /\ key \notin DOMAIN digs THEN Upd(digs, key, ev.dg) ELSE digs
       /\ imgs' = Upd(imgs, ev.img, [kind |-> o.kind, par |-> o.par, S |-> o.S, tid |-> o.tid, bytes |-> ev.bytes, dg |-> ev.dg,
                                      differs |-> o.differs \/ srcdiff])
-      /\ Report(ev, Cs, o.kind, o.origin) /\ UNCHANGED <<objs, tabs, iters>>
+      /\ Report(ev, Cs, o.kind, o.origin) /\ UNCHANGED <<objs, tabs, iters, memo>>
 
 \* the image of the stream that starts at byte offset `at`
 RECURSIVE ImgAt(_, _, _)
@@ -253,18 +271,19 @@ TLoad(ev) ==
                    THEN Upd(objs, ev.h, [kind |-> im.kind, par |-> im.par, S |-> im.S, tid |-> im.tid, origin |-> "loaded",
                                          opt |-> ev.opt, differs |-> im.differs, srcdg |-> im.dg])
                    ELSE objs
-      /\ Report(ev, Cs, IF tgt # 0 THEN im.kind ELSE "?", "loaded") /\ UNCHANGED <<tabs, iters, imgs, digs>>
+      /\ Report(ev, Cs, IF tgt # 0 THEN im.kind ELSE "?", "loaded") /\ UNCHANGED <<tabs, iters, imgs, digs, memo>>
 
 KnownTags == {Tag(k) : k \in GenericKinds}
 TLoadTag(ev) ==
   LET small == Len(ev.tag) = 2 /\ ev.tag[2] = 0
       known == small /\ ev.tag[1] \in KnownTags
       Cs == IF ~known /\ ev.null = 0 THEN <<C("C16", "generic loader returned an object for an unknown type tag")>> ELSE <<>>
-  IN  Report(ev, Cs, IF ev.img \in DOMAIN imgs THEN imgs[ev.img].kind ELSE "?", "image") /\ UNCHANGED <<objs, tabs, iters, imgs, digs>>
+  IN  Report(ev, Cs, IF ev.img \in DOMAIN imgs THEN imgs[ev.img].kind ELSE "?", "image") /\ UNCHANGED <<objs, tabs, iters, imgs, digs, memo>>
 
 TDestroy(ev) ==
   /\ objs' = Drop(objs, ev.h)
   /\ iters' = [x \in {y \in DOMAIN iters : iters[y].h # ev.h} |-> iters[x]]
+  /\ memo' = [k \in {y \in DOMAIN memo : y[1] # ev.h} |-> memo[k]]        \* the handle may be reused
   /\ Quiet /\ UNCHANGED <<tabs, imgs, digs>>
 
 TFault(ev) ==
@@ -273,24 +292,24 @@ TFault(ev) ==
                              [] OTHER -> "memory error reported during an API call")>>,
             IF "h" \in DOMAIN ev /\ ev.h \in DOMAIN objs THEN objs[ev.h].kind ELSE "?",
             IF "h" \in DOMAIN ev /\ ev.h \in DOMAIN objs THEN objs[ev.h].origin ELSE "?")
-  /\ UNCHANGED <<objs, tabs, iters, imgs, digs>>
+  /\ UNCHANGED <<objs, tabs, iters, imgs, digs, memo>>
 
 -----------------------------------------------------------------------------
 Has(ev, f) == f \in DOMAIN ev
 ObjOK(ev) == ev.h \in DOMAIN objs
 ItOK(ev) == ev.it \in DOMAIN iters /\ iters[ev.it].h \in DOMAIN objs
 
-Skip == Quiet /\ UNCHANGED <<objs, tabs, iters, imgs, digs>>
+Skip == Quiet /\ UNCHANGED <<objs, tabs, iters, imgs, digs, memo>>
 
 TInit == /\ l = 1 /\ prog = [id |-> "", focus |-> ""] /\ objs = <<>> /\ tabs = <<>> /\ iters = <<>> /\ imgs = <<>>
-         /\ digs = <<>> /\ nev = 0 /\ nbad = 0
+         /\ digs = <<>> /\ memo = <<>> /\ nev = 0 /\ nbad = 0
 
 TNext ==
   /\ l <= Len(TraceLog) /\ l' = l + 1 /\ nev' = nev + 1
   /\ LET ev == TraceLog[l] e == ev.e IN
      IF e = "Reset" THEN
        /\ prog' = [id |-> ev.prog, focus |-> IF Has(ev, "focus") THEN ev.focus ELSE ""]
-       /\ objs' = <<>> /\ tabs' = <<>> /\ iters' = <<>> /\ imgs' = <<>> /\ Quiet /\ UNCHANGED digs
+       /\ objs' = <<>> /\ tabs' = <<>> /\ iters' = <<>> /\ imgs' = <<>> /\ memo' = <<>> /\ Quiet /\ UNCHANGED digs
      ELSE
        /\ prog' = prog
        /\ CASE e = "Build" -> TBuild(ev)
@@ -311,7 +330,7 @@ TNext ==
             [] e = "StrNext" -> TStrNext(ev)
             [] e = "IterCap" -> TIterCap(ev)
             [] e = "Close" -> /\ iters' = IF ev.it \in DOMAIN iters THEN Drop(iters, ev.it) ELSE iters
-                              /\ Quiet /\ UNCHANGED <<objs, tabs, imgs, digs>>
+                              /\ Quiet /\ UNCHANGED <<objs, tabs, imgs, digs, memo>>
             [] e = "Save" -> TSave(ev)
             [] e = "Load" -> TLoad(ev)
             [] e = "LoadTag" -> TLoadTag(ev)
